@@ -35,6 +35,9 @@ pub mod invoice_utils;
 pub mod peer_channel_encryptor;
 #[cfg(not(fuzzing))]
 pub(crate) mod peer_channel_encryptor;
+/// Verification hooks (feature `_verif`): native probe of the BOLT-8 transport kernel.
+#[cfg(all(feature = "_verif", not(fuzzing)))]
+pub use self::peer_channel_encryptor::verif_hooks as noise_verif_hooks;
 
 #[cfg(fuzzing)]
 pub mod channel;
